@@ -34,8 +34,8 @@ void NTT_Goldilocks::NTT_iters(Goldilocks::Element *dst, Goldilocks::Element *sr
     {
         nphase = domainPow;
     }
-    u_int64_t maxBatchPow = s / nphase;
-    u_int64_t res = s % nphase;
+    u_int64_t maxBatchPow = domainPow / nphase;
+    u_int64_t res = domainPow % nphase;
     if (res > 0)
     {
         maxBatchPow += 1;
